@@ -1559,6 +1559,8 @@ func (v *VMValue) ComputedExecute(ctx *Context, detail *BufferSpan) *VMValue {
 	}
 
 	if vm.Error != nil {
+		// 失败的子执行做过的工作同样计入调用者: RunExpr 会吞掉这里的错误继续执行，宿主函数借此可以在算力上限下无限掷骰
+		ctx.NumOpCount = vm.NumOpCount
 		ctx.Error = vm.Error
 		return nil
 	}
@@ -1651,6 +1653,8 @@ func (v *VMValue) FuncInvokeRaw(ctx *Context, params []*VMValue, useUpCtxLocal b
 	}
 
 	if vm.Error != nil {
+		// 失败的子执行做过的工作同样计入调用者: RunExpr 会吞掉这里的错误继续执行，宿主函数借此可以在算力上限下无限掷骰
+		ctx.NumOpCount = vm.NumOpCount
 		ctx.Error = vm.Error
 		return nil
 	}
